@@ -257,6 +257,9 @@ fn eq_array_m<const N: usize, const M: usize>(
 struct GenIter<'a> {
     vals: &'a [i64],
     pos: usize,
+    /// what size_hint() claims: 0 = nothing (0, None); 1 = exact; 2 = a lower bound only; k >= 3 = an upper bound that is
+    /// k - 2 too generous (like a filter adaptor)
+    hint: i64,
 }
 impl Iterator for GenIter<'_> {
     type Item = Tracked;
@@ -267,6 +270,15 @@ impl Iterator for GenIter<'_> {
         let v = self.vals[self.pos];
         self.pos += 1;
         Some(gen_element(Kind::Iter, v as u32))
+    }
+    fn size_hint(&self) -> (usize, Option<usize>) {
+        let rest = self.vals.len() - self.pos;
+        match self.hint {
+            0 => (0, None),
+            1 => (rest, Some(rest)),
+            2 => (rest / 2, None),
+            k => (0, Some(rest + (k - 2) as usize)),
+        }
     }
 }
 
@@ -489,7 +501,7 @@ impl<const N: usize> Drv<N> {
             "from_iter" => {
                 let vals = gv(st, "vals");
                 ev.vals = vals.clone();
-                let r = call(&mut ev, fault, || Buf::<N>::from_iter(GenIter { vals: &vals, pos: 0 }));
+                let r = call(&mut ev, fault, || Buf::<N>::from_iter(GenIter { vals: &vals, pos: 0, hint: gi(st, "hint", 0) }));
                 if let Some(b) = r {
                     self.set_buf(h, Box::into_raw(Box::new(b)));
                 }
@@ -674,7 +686,8 @@ impl<const N: usize> Drv<N> {
             "extend" => {
                 let vals = gv(st, "vals");
                 ev.vals = vals.clone();
-                let r = call(&mut ev, fault, || b.extend(GenIter { vals: &vals, pos: 0 }));
+                ev.j = gi(st, "hint", 0);
+                let r = call(&mut ev, fault, || b.extend(GenIter { vals: &vals, pos: 0, hint: gi(st, "hint", 0) }));
                 if r.is_some() {
                     ev.ret = Ret::unit();
                 }
